@@ -16,7 +16,7 @@ EXPLANATION = (
     "samples are appended after (reverse) / prepended before (forward) consistently with evaluate_marginals; every draw uses a fresh sub-key of a split and the "
     "carried key is the other half; sample_flat is mean + L * base (affine in the standard-normal draw, offset = mean) with one independent draw per entry of the mean and no broadcast of the random term (so the Gram matrix of the map is L L^T per independent column, the covariance of the factorisation); "
     "requested sample shapes are peeled off one axis at a time with independent keys; sample_tree unflattens its own sample_flat."
-    "  Prior sequences on a grid: every transition uses an all-ones calibrated scale, and the factors returned for reverse=True are not the forward factors under another label (known finding)."
+    "  Prior sequences on a grid: every transition uses an all-ones calibrated scale, and the factors returned for reverse=True are not the forward factors under another label: they come from one forward pass from prior.init over the forward transitions that reverts the k-th transition at the carried marginal (final carry and stacked reversals stored), or reverse=True is rejected loudly."
 )
 LEVEL = "other"
 TECHNIQUE = "abstract interpretation over the AST: Markov time typestate with an inductive scan check, provenance of PRNG keys, value-numbering normal form (affine in the draw)"
@@ -288,6 +288,35 @@ def _run_own(chk, S: Session):
     prior_grid_rules(chk, S)
 
 
+def _is_reversal_pass(it, n_ev, init, res_f, res_b):
+    """(ok, detail): the factors returned for reverse=True come from ONE forward pass over the forward transitions that starts at prior.init and reverts the k-th
+    transition at the carried marginal: the final carry (the law at the last grid point) is the stored marginal, the stacked reversals are the stored conditionals.
+    True when that shape is recognised, None (undecided) for any other construction."""
+    scans = [e for e in it.events[n_ev:] if e["kind"] == "scan"]
+    if len(scans) != 1:
+        return None, f"{len(scans)} scans while building the reverse=True factors (expected one forward pass)"
+    e = scans[0]
+    if e.get("reverse") not in (False, None):
+        return False, "the pass over the transitions runs backwards in time: the reversal of the k-th transition needs the marginal at t_k, which is only known after the transitions before it"
+    if e["init"] is not init:
+        return False, f"the pass starts from {T.show(e['init'], 2) if isinstance(e['init'], T.Term) else e['init']!r}, not from prior.init"
+    fc = it.getattr(res_f, "conditional", None)
+    if not (isinstance(e["xs"], T.Term) and isinstance(fc, T.Term) and T.show(e["xs"], 12) == T.show(fc, 12)):
+        return False, "the pass does not run over the forward transitions of the grid"
+
+    def part(t, idx):
+        if not (isinstance(t, T.Term) and t.op == "getitem" and t.args[1] == idx):
+            return False
+        mc = t.args[0]
+        return isinstance(mc, T.Term) and mc.op == "mcall" and mc.args[1] == "revert" and mc.args[0] is e["x"] and len(mc.args) > 2 and mc.args[2] is e["carry"]
+
+    if not (part(e["new_carry"], 0) and part(e["y"], 1)):
+        return None, f"the body of the pass is not (marginal, conditional) = transition_k.revert(carried marginal): carry' = {T.show(e['new_carry'], 3)}, y = {T.show(e['y'], 3)}"
+    if it.getattr(res_b, "marginal", None) is not e["final"] or it.getattr(res_b, "conditional", None) is not e["ys"]:
+        return False, "the stored factors are not (final marginal, stacked reversals) of the pass"
+    return True, "one forward pass from prior.init that reverts the k-th transition at the carried marginal; stored: the law at the last grid point and the stacked reversals"
+
+
 def prior_grid_rules(chk, S):
     """Prior samples on a grid follow the prior's joint law: from_grid must discretise with a unit calibrated scale *by value*."""
     from ..harness import BLOCK, DENSE, ISO
@@ -334,6 +363,7 @@ def prior_grid_rules(chk, S):
         # the direction: a backward factorisation of the prior's law on the grid starts from the law at the LAST grid point and conditions
         # earlier on later states; the forward factors (prior.init, x(t_k+1) | x(t_k)) under the label reverse=True are another law
         n_fwd = len(calls)
+        n_ev = len(it.events)
         try:
             res_b = it.call(it.getattr(cv, "from_grid", None), [prior], {"grid": A("grid"), "reverse": True}, "<harness>")
             same_marginal = it.getattr(res_b, "marginal", None) is it.getattr(res, "marginal", None)
@@ -341,8 +371,11 @@ def prior_grid_rules(chk, S):
             lab_f, lab_b = it.getattr(res, "reverse", None), it.getattr(res_b, "reverse", None)
             if lab_f is not False or lab_b is not True:
                 r5.unknown(f"from_grid [{fam}] reverse=True is a backward factorisation of the same law", f"labels {lab_f!r}, {lab_b!r}", EST_)
+            elif not (same_marginal and same_steps):
+                okb, detb = _is_reversal_pass(it, n_ev, init, res, res_b)
+                r5.require(okb, f"from_grid [{fam}] reverse=True is a backward factorisation of the same law" + ("" if okb else " [construction of the backward factors]"), detb, detb, EST_, {"factorisation": fam})
             else:
-                r5.require(not (same_marginal and same_steps), f"from_grid [{fam}] reverse=True is a backward factorisation of the same law", "the factors differ from the forward factors",
+                r5.require(False, f"from_grid [{fam}] reverse=True is a backward factorisation of the same law [forward factors relabelled]", "",
                            "from_grid(reverse=True) returns prior.init and the forward transitions x(t_k+1) | x(t_k) of reverse=False, relabelled as backward conditionals: the exact initial condition sits at "
                            "the last grid point and the sequence is not the prior's law on the grid", EST_, {"factorisation": fam})
         except RaiseSignal as e:
